@@ -252,9 +252,20 @@ func runConnInner(args []string) string {
 	var cur pAttempt
 	add := func(s string) { items = append(items, s) }
 
+	// warm-up: a first Connect call on the same Connection that fails twice and is then rejected by the validator
+	// (nothing dispatched, context still live); whatever it used up must not show in the call that follows
+	warm, warmN := false, 0
+	var rejectedBody *slowBody
 	rt := rtFunc(func(r *http.Request) (*http.Response, error) {
 		mu.Lock()
 		defer mu.Unlock()
+		if warm {
+			warmN++
+			if warmN <= 2 {
+				return nil, errTransport
+			}
+			return &http.Response{StatusCode: 200, Header: http.Header{"X-Verif-Reject": {"0"}}, Body: io.NopCloser(strings.NewReader("")), Request: r}, nil
+		}
 		i := idx
 		idx++
 		// what the request carries
@@ -310,7 +321,9 @@ func runConnInner(args []string) string {
 			}
 			// the verdict's flavour (plain, Temporary, Timeout, both, wrapped) follows from the attempt number: every
 			// validator error is final whatever it says about itself
-			return &http.Response{StatusCode: 200, Header: http.Header{"X-Verif-Reject": {fmt.Sprint(i % 5)}}, Body: io.NopCloser(strings.NewReader("")), Request: r}, nil
+			// a rejected response may well be a long-lived stream: its body does not end for a while
+			rejectedBody = &slowBody{}
+			return &http.Response{StatusCode: 200, Header: http.Header{"X-Verif-Reject": {fmt.Sprint(i % 5)}}, Body: rejectedBody, Request: r}, nil
 		}
 		if cur.cancel == "b" {
 			cancel()
@@ -354,6 +367,9 @@ func runConnInner(args []string) string {
 	client.OnRetry = func(err error, d time.Duration) {
 		mu.Lock()
 		defer mu.Unlock()
+		if warm {
+			return
+		}
 		add(fmt.Sprintf("R %s %d", showRes(err), int64(d)))
 		if cur.bang {
 			cancel()
@@ -412,6 +428,18 @@ func runConnInner(args []string) string {
 	if args[4] == "1" {
 		cancel()
 	}
+	// (only where it cannot be seen otherwise: no body to rewind, no caller-set Last-Event-ID header — a retry without an
+	// ID of its own deletes that header from the connection's request —, waits of microseconds)
+	if ii, _ := strconv.ParseInt(strings.Split(args[0], ",")[0], 10, 64); args[4] != "1" && (args[2] == "none" || args[2] == "nobody") &&
+		!strings.HasPrefix(args[3], "h:") && ii > 0 && ii <= 100_000 && len(args[5])%4 == 1 {
+		mu.Lock()
+		warm = true
+		mu.Unlock()
+		_ = c.Connect()
+		mu.Lock()
+		warm = false
+		mu.Unlock()
+	}
 	done := make(chan error, 1)
 	go func() { done <- c.Connect() }()
 	var err error
@@ -426,9 +454,23 @@ func runConnInner(args []string) string {
 	}
 	mu.Lock()
 	defer mu.Unlock()
+	if rejectedBody != nil && rejectedBody.waited.Load() {
+		// "returns at once … when the response validator … fails": Connect sat through the rejected response's body
+		add("REJECTION-WAITED-FOR-THE-BODY")
+	}
 	add("RET " + showRes(err))
 	return strings.Join(items, " | ")
 }
+
+// slowBody is the body of a response the validator rejects: a stream that stays open for a while
+type slowBody struct{ waited atomic.Bool }
+
+func (b *slowBody) Read([]byte) (int, error) {
+	time.Sleep(150 * time.Millisecond)
+	b.waited.Store(true)
+	return 0, io.EOF
+}
+func (b *slowBody) Close() error { return nil }
 
 // ---------------------------------------------------------------- CTRL / FLOAT / MERGE
 
